@@ -65,8 +65,8 @@ func NewLimiterMiddleware(hdrName string, reqLimiter *IPRequestLimiter) func(nex
 		fn := func(w http.ResponseWriter, r *http.Request) {
 			ip, err := ipFromRequest(r)
 			if err != nil {
-				_, _ = w.Write([]byte("could not read client IP"))
-				w.WriteHeader(http.StatusBadRequest)
+				// The status must be set before the body is written (otherwise it is 200)
+				http.Error(w, "could not read client IP", http.StatusBadRequest)
 				return
 			}
 			now := time.Now()
